@@ -172,3 +172,29 @@ Proof. exists (set_superset (set_k ex_dag (KInt 0)) true). vm_compute. auto. Qed
 Theorem old_validate_kFlowDecomp_refuted_bool_k_with_given_weights :
   exists i, in_domain_kFlowDecomp i = false /\ old_validate_kFlowDecomp i = Accept.
 Proof. exists (set_superset (set_k ex_dag (KBool true)) true). vm_compute. auto. Qed.
+
+(* ---------------------------------------------------------------- the constraint-type decision of the node-weighted models *)
+(* NodeExpandedDiGraph.get_expanded_subpath_constraints decides by the FIRST element whether the constraints are lists of nodes or
+   lists of edges; a constraint list whose elements are not all of that kind (and present in the graph) is rejected with
+   ValueError: mixed node/edge lists never get through, in either order *)
+Lemma first_bad_none_kind l : first_bad_edge_item l = None -> forallb (fun it => kind_eqb (it_kind it) IPair) l = true.
+Proof.
+  intros H. apply first_bad_none in H. rewrite item_good_split in H. apply andb_prop in H as [H _]. exact H.
+Qed.
+Theorem expand_cons_uniform cs :
+  expand_cons cs = None ->
+  forallb (fun it => kind_eqb (it_kind it) IStr) (all_items cs) = true \/
+  forallb (fun it => kind_eqb (it_kind it) IPair) (all_items cs) = true.
+Proof.
+  unfold expand_cons, guard, seq. destruct (forallb c_is_list cs); cbn [negb]; [|discriminate].
+  destruct (existsb (fun c => is_nil (c_items c)) cs) eqn:NE; [discriminate|].
+  destruct cs as [|c0 r]; [left; reflexivity|].
+  destruct (c_items c0) as [|it0 l0] eqn:I0.
+  { cbn in NE. rewrite I0 in NE. discriminate. }
+  destruct (it_kind it0).
+  - destruct (forallb (item_good IStr) (all_items (c0 :: r))) eqn:G; cbn; [|discriminate].
+    intros _. left. rewrite item_good_split in G. apply andb_prop in G as [G _]. exact G.
+  - intros H. right. apply first_bad_none_kind. exact H.
+  - intros H. right. apply first_bad_none_kind. exact H.
+  - discriminate.
+Qed.
